@@ -42,6 +42,14 @@ def gen_rich_logical(rng, depth):
         if r2 < 0.1:
             # comparisons / membership tests as operands of comparisons (accepted by the parser through grouping)
             inner = ["op", rng.choice(Q.CMP_OPS + ["in"]), Q.gen_ext_comparable(rng, 0), ["lit", rng.choice([1, "a", True])]]
+            r3 = rng.random()
+            if r3 < 0.3:
+                # negation of a comparison, a membership test or a group as an operand
+                inner = ["not", inner]
+            elif r3 < 0.4:
+                inner = ["not", ["op", rng.choice(["&&", "||"]), inner, Q.gen_ext_logical(rng, 0)]]
+            elif r3 < 0.5:
+                inner = ["op", rng.choice(["&&", "||"]), ["not", inner], Q.gen_ext_logical(rng, 0)]
             if rng.random() < 0.5:
                 return ["op", rng.choice(["==", "!=", "in", "contains"]), inner, ["lit", True]]
             return ["op", rng.choice(["==", "in"]), Q.gen_ext_comparable(rng, 0), inner]
